@@ -69,9 +69,19 @@ def _dict_normal(S: Sem, e: ast.AST, at: int):
         if not isinstance(tv, ast.Tuple):
             return None
         it = ge.iter
+        if isinstance(it, ast.Name):
+            alts_ = S.alternatives(it, at)  # `keys = self.results.keys()` kept in a local; an optional `keys=` argument with a None default
+            flt_ = [a_ for a_ in alts_ if isinstance(a_, (ast.ListComp, ast.GeneratorExp))]
+            it = flt_[0] if flt_ else alts_[0]
+        pre_conds = []
+        if isinstance(it, (ast.ListComp, ast.GeneratorExp)) and len(it.generators) == 1 and isinstance(it.elt, ast.Name) and isinstance(it.generators[0].target, ast.Name) \
+                and it.elt.id == it.generators[0].target.id and isinstance(ge.target, ast.Name):
+            # keys pre-selected by a filter:  common = [k for k in A if c(k)] ; {k: … for k in common}
+            pre_conds = [norm(S._subst(c_, {it.elt.id: ast.Name(id=ge.target.id, ctx=ast.Load())})) for c_ in it.generators[0].ifs]
+            it = it.generators[0].iter
         src = norm(it.func.value) if isinstance(it, ast.Call) and isinstance(it.func, ast.Attribute) and it.func.attr in ("items", "keys") else norm(it)
         bound = {n.id for n in ast.walk(ge.target) if isinstance(n, ast.Name)}
-        conds = []
+        conds = list(pre_conds)
         for c_ in ge.ifs:
             sub = {}
             if isinstance(it, ast.Call) and isinstance(it.func, ast.Attribute) and it.func.attr == "items" and isinstance(ge.target, ast.Tuple) and len(ge.target.elts) == 2 \
@@ -421,6 +431,7 @@ def run(ctx) -> None:
         m_ = d.methods.get(mname)
         if m_ is None:
             return None
+        m_ = inline_private_helpers(idx, m_)
         S_ = Sem(idx, m_)
         for c_ in ast.walk(m_.node):
             if isinstance(c_, ast.Call) and call_name(c_) == "ResultDict" and c_.args:
